@@ -598,7 +598,7 @@ func (e *vEngine) runCrash(x *vCtx, out map[string]interface{}) {
 	// crash-free node after a SECOND delivery of all arrivals (a block dropped by the first-wins orphan
 	// pool in the first pass is connected in the second one, exactly as on the restarted node).
 	for i := range c.Arrivals {
-		e.arrive(n, x, i)
+		e.arriveOpt(n, x, i, true) // plain network delivery, like the replay on the restarted nodes
 	}
 	out["final"] = e.final(n, x)
 	fChain, fState := cj.snapshot(), sj.snapshot()
